@@ -2249,6 +2249,12 @@ func (c *compiler) evaluateStructLiteral(structType *ddptypes.StructType, args m
 
 		argVal, argType, isTempArg := c.evaluate(argExpr)
 
+		// implicit numeric casts
+		if fieldType := c.toIrType(field.Type); ddptypes.IsNumeric(field.Type) && argType != fieldType &&
+			(argType == c.ddpinttyp || argType == c.ddpfloattyp || argType == c.ddpbytetyp) {
+			argVal, argType = c.numericCast(argVal, argType, fieldType), fieldType
+		}
+
 		// implicit cast to any if required
 		if ddptypes.DeepEqual(field.Type, ddptypes.VARIABLE) && argType != c.ddpany {
 			vtable := argType.VTable()
